@@ -101,10 +101,16 @@ def compare(got, exp_segs, exp_tags, facts=()):
             if need != 0: mism.append((where, 'a %d-byte field is specified here; image has %s' % (e[2], show_segs(got[i:i + 2])))); break
             pos = add(pos, C(e[2])); i = k; j += 1; continue
         if g[0] == 'int' and e[0] == 'int' and g[2] != e[2] and e[1] != ANY and g[1][0] != 'c':
-            # a wider/narrower field than specified
-            mism.append((where, 'width %d, specified %d (%s vs %s)' % (g[2], e[2], show(g[1]), show(e[1])))); break
+            # a wider/narrower field than specified: reported once; the comparison goes on field by field (positions are
+            # the specification's), so that a second, unrelated deviation further on is not hidden behind this one
+            mism.append((where, 'width %d, specified %d (%s vs %s)' % (g[2], e[2], show(g[1]), show(e[1]))))
+            pos = add(pos, C(e[2])); i += 1; j += 1; continue
         if g[0] != e[0]:
-            mism.append((where, 'emits %s, specified %s' % (show_segs([g]), show_segs([e]) if e[1:2] != (ANY,) else 'a %d-byte field' % e[2]))); break
+            mism.append((where, 'emits %s, specified %s' % (show_segs([g]), show_segs([e]) if e[1:2] != (ANY,) else 'a %d-byte field' % e[2])))
+            if {g[0], e[0]} <= {'int', 'raw'} and (g[1][0] != 'c' if g[0] == 'int' else True):
+                # one field emitted in another form / width: same resynchronisation
+                pos = add(pos, seglen(e)); i += 1; j += 1; continue
+            break
         if g[0] == 'int':
             if g[2] != e[2]: mism.append((where, 'width %d, specified %d' % (g[2], e[2]))); break
             if e[1] != ANY:
@@ -128,7 +134,7 @@ def compare(got, exp_segs, exp_tags, facts=()):
         else:
             if g != e: mism.append((where, '%r vs %r' % (g, e)))
         pos = add(pos, seglen(g)); i += 1; j += 1
-    if not mism and (i < len(got) or j < len(exp)):
+    if (not mism or all('width' in w or 'emits' in w for _, w in mism)) and (i < len(got) or j < len(exp)) and not (mism and i >= len(got) and j >= len(exp)):
         mism.append((show(pos), 'image has %s here, specification has %s' % (show_segs(got[i:i + 3]) if i < len(got) else 'nothing more', show_segs(exp[j:j + 3]) if j < len(exp) else 'nothing more')))
     return mism
 
